@@ -52,7 +52,8 @@ def gen(rs: int, tier: str, index: int) -> dict:
             if isinstance(m.get("task"), int) and s["tasks"][m["task"]].get("sync"):
                 m["task"] = 0
                 m.pop("pool_delay_us", None)
-    return s
+    from ._wcommon import maybe_cli_entry
+    return maybe_cli_entry(s, index, 8, 2)
 
 
 def oracle(script: dict, run: Any) -> List[Violation]:
